@@ -171,6 +171,16 @@ def run_case(case):
                 viol.append({"monitor": "M-immut", "mech": "literal-operand-modified", "msg": f"literal operand #{j} was modified in place: {b.ravel()[:4]} vs {a.ravel()[:4]}"})
     # ---- M-alias after the final backward
     tens = {n: v for n, v in it.env.items() if mgrun.is_tensor(v)}
+    nbw = sum(1 for st in prog if st["k"] in ("backward", "clear"))
+    for n, v in list(tens.items()):
+        try:
+            v.grad
+        except Exception as e:
+            # known-finding probe: a view that MyGrad still attaches to a base whose memory it no longer shares (see classify)
+            stale = v.base is not None and v.creator is not None and nbw >= 2 and not np.shares_memory(v.data, v.base.data)
+            viol.append({"monitor": "M-alias", "mech": "grad-getter-raises:" + type(e).__name__, "stale_family": bool(stale),
+                         "msg": f"reading {n}.grad raised {type(e).__name__}: {e}"})
+            del tens[n]
     for n, v in list(tens.items()):   # t.copy() of a view (and of its base): the copy's gradient must be its own array
         if v.base is not None and v.grad is not None and len(tens) < 40:
             tens["copy:" + n] = v.copy()
@@ -239,7 +249,7 @@ def run_case(case):
 
 def classify(v, case):
     m = v.get("mech") or v["monitor"]
-    if m == "grads-alias-unrelated-tensors" and v.get("stale_family"):
+    if (m == "grads-alias-unrelated-tensors" or m.startswith("grad-getter-raises")) and v.get("stale_family"):
         return "stale-view-keeps-base-across-epochs"
     return m
 
